@@ -15,8 +15,12 @@
    longer holds when the source compares otherwise.
 
    These proofs are meant to break when one of the Python functions changes its
-   meaning: the loop lemmas take the translated loop bodies as they are generated
-   and compare them with the steps of the model. *)
+   meaning, and to keep checking when it is only written differently: the loop
+   lemmas take the translated loop bodies as they are generated (matched from the
+   goal) and compare them with the steps of the model; a local name for
+   grammar[ip] or for a container of the cache is a let for that entry / path
+   (reduced away, after the lookup the binding performs), and the two loops over
+   next_letter may be one loop with the `length == 1` test inside. *)
 From Coq Require Import List Arith Bool NArith ZArith Lia.
 From Pcfg Require Import KernelRt OmenSpec OmenLevel OmenKeyspace OmenRt OmenRtProofs OmenLevelProofs
   OmenKeyspaceProofs.
@@ -194,6 +198,26 @@ Proof.
   destruct (dfind Z.eqb len d1); [reflexivity | discriminate].
 Qed.
 
+(* P = grammar[ip]['keyspace_cache'][len] evaluated for an alias: the container exists *)
+Definition kget2 (kc : kcache) (ip : ostr) (len : Z) : kc2 :=
+  match dfind ostr_eqb ip kc with
+  | Some d1 => match dfind Z.eqb len d1 with Some d2 => d2 | None => [] end
+  | None => []
+  end.
+
+Lemma kc_get2_ok kc ip len : has2b kc ip len = true -> kc_get2 kc ip len = Ok (kget2 kc ip len).
+Proof.
+  unfold has2b, kc_get2, kc_get1, kget2, dmem.
+  destruct (dfind ostr_eqb ip kc) as [d1|]; [|discriminate]. cbn [dict_get bind].
+  destruct (dfind Z.eqb len d1); [reflexivity | discriminate].
+Qed.
+
+Definition kget1 (kc : kcache) (ip : ostr) : kc1 :=
+  match dfind ostr_eqb ip kc with Some d1 => d1 | None => [] end.
+
+Lemma kc_get1_ok kc ip : dmem ostr_eqb ip kc = true -> kc_get1 kc ip = Ok (kget1 kc ip).
+Proof. unfold dmem, kc_get1, kget1. destruct (dfind ostr_eqb ip kc); [reflexivity | discriminate]. Qed.
+
 Lemma kc_set3_kset3 kc ip len lvl v : has2b kc ip len = true -> kc_set3 kc ip len lvl v = Ok (kset3 kc ip len lvl v).
 Proof.
   unfold has2b, kc_set3, kc_get1, kset3, dmem.
@@ -309,13 +333,16 @@ Proof.
   intros CL k. induction k as [|k' IH]; intros Hk fuel kc c lvl ip e Hf HE HR; [lia|].
   destruct fuel as [|f]; [lia|].
   destruct (ol_find_entry_In _ _ _ HE) as [Hin Hkey]. rewrite (rec_ks_S T k' c lvl ip).
-  cbn [py_rec_calc_keyspace]. rewrite !HE. cbn [dict_get bind]. rewrite !Hkey.
+  (* the source may name grammar[ip] and the cache containers (local aliases are lets here) *)
+  cbn [py_rec_calc_keyspace]. rewrite !HE. cbn [dict_get bind]. cbv zeta. rewrite !Hkey.
   rewrite kc_mem1_ok. cbn [bind]. rewrite ens1_step. cbn [bind].
+  rewrite ?kc_get1_ok by apply dmem_ens1. cbn [bind]. cbv zeta.
   rewrite kc_mem2_ok by apply dmem_ens1. cbn [bind]. rewrite ens2_step by apply dmem_ens1. cbn [bind].
   set (K := S k') in *. set (kc1 := ens2 (ens1 kc ip) ip (Z.of_nat K)).
   assert (H1 : forall ip' len lvl', kfind kc1 ip' len lvl' = kfind kc ip' len lvl')
     by (intros; unfold kc1; now rewrite kfind_ens2, kfind_ens1).
   assert (H2 : has2b kc1 ip (Z.of_nat K) = true) by (apply has2b_ens2, dmem_ens1).
+  rewrite ?kc_get2_ok by exact H2. cbn [bind]. cbv zeta.
   rewrite kc_mem3_kfind by exact H2. cbn [bind]. rewrite H1, (HR ip K lvl (le_n _)).
   destruct (cache_find c (ip, K, lvl)) as [v|] eqn:EF; cbn [option_map].
   { (* cached *)
